@@ -375,7 +375,16 @@ func c04FactsCheck(c *core.Ctx, cases []specCase) []core.Outcome {
 			}
 		}
 		if got != goAns[i] {
-			if cases[i].Opts.RE2 && strings.Contains(cases[i].Pattern, "Z") && strings.Contains(cases[i].Pattern, "z") {
+			// RE2: `$`, `\Z` and `\z` all mean "the very end" and the conversion maps them to one anchor, while the
+			// engine's tree keeps different node types for them: an alternation mixing two spellings has an agreed
+			// edge anchor in the model and none in Go (design.d/C04.md, "checked by hand", item 1)
+			ends := 0
+			for _, sp := range []string{"$", `\Z`, `\z`} {
+				if strings.Contains(cases[i].Pattern, sp) {
+					ends++
+				}
+			}
+			if cases[i].Opts.RE2 && ends >= 2 {
 				outs[i].Buckets = append(outs[i].Buckets, "tolerated:re2-mixed-end-anchors")
 				continue
 			}
